@@ -190,6 +190,25 @@ ENVIRONMENTS = (
 )
 
 
+TERMINAL_ENVS = ({}, {"TERM": None}, {"TERM": "dumb"}, {"TERM": ""}, {"TERM": "vt100", "NO_COLOR": "1"}, {"TERM": None, "COLUMNS": None, "LINES": None, "HOME": None},
+                 {"TERM": "xterm-256color", "COLORTERM": "truecolor"}, {"TERM": "unknown-terminal-type"})
+
+
+def typeable(inp):
+    """answers that can be typed at a terminal as they are: printable ASCII (control characters are commands to the line discipline), with a
+    complete dialogue (a terminal has no end of input to offer)"""
+    lines = inp.get("stdin") or []
+    if not all(32 <= ord(c) < 127 for l in lines for c in l) or any(len(l) > 200 for l in lines):
+        return False
+    argv = expand(inp["argv"])
+    allm = ("-a" in argv) or ("--all" in argv)
+    for version in selected_versions(argv):
+        order = interact.probe_order(version, allm)
+        if order is None or interact.model(interact.verkey(version), order, lines)[0] is None:
+            return False
+    return True
+
+
 def planted_file(inp):
     """(relative path = the VECTOR argument, content = another valid vector) when the case asks for it"""
     if not inp.get("plant"):
@@ -237,7 +256,7 @@ def check_cli(inp):
     argv, stdin = inp["argv"], inp.get("stdin")
     raw = argv
     if inp.get("pty"):
-        r = cli.run_pty(argv, inp["pty"][0], inp["pty"][1], console_script=bool(inp.get("console_script")))
+        r = cli.run_pty(argv, inp["pty"][0], inp["pty"][1], console_script=bool(inp.get("console_script")), stdin_lines=stdin, env_extra=inp.get("env"))
         if r["status"] is None:
             return []           # time budget: inconclusive
     elif inp.get("subprocess"):
@@ -410,9 +429,41 @@ def hyp_part(n_examples, shard, n_sub):
                     raise runner.Falsified("cli", term, [failure("exit status 0, no traceback", {"status": c["status"], "stderr": c["err"][-300:]})])
                 elif c["out"] != a["out"]:
                     raise runner.Falsified("cli", term, [failure(a["out"][-300:], c["out"][-300:], note="output on a %dx%d terminal differs from the captured in-process output" % tuple(term["pty"]))])
+            if inp["stdin"] is not None and k % 2 == 1 and typeable(inp):
+                # the dialogue at a terminal: answers typed ahead on a pseudo-terminal, under several terminal environments
+                term = dict(inp, pty=[80, 24], console_script=cs, env=TERMINAL_ENVS[(k // 2) % len(TERMINAL_ENVS)])
+                part.classes["dialogue at a terminal"] += 1
+                f = check_cli(term)
+                if f:
+                    raise runner.Falsified("cli", term, f)
             if a["out"] != b["out"] and not decoded_differently(sub):
                 raise runner.Falsified("cli", sub, [failure(a["out"][-300:], b["out"][-300:], note="subprocess stdout differs from in-process stdout")])
     runner.run_hyp(part, t, "C17.hyp")
+    return part
+
+
+def pty_dialogue_part(shard, n, seed):
+    """complete, typeable dialogues at a pseudo-terminal under every terminal environment (deterministic answers from a seeded generator)"""
+    import random
+    part = runner.Part(PID)
+    rng = random.Random(runner.mix(seed, 1717, shard))
+    combos = [(f, allm, e) for f in ("-2", "-3", "-4", None) for allm in (False, True) for e in range(len(TERMINAL_ENVS))]
+    for i in range(n):
+        flag, allm, e = combos[(shard * n + i) % len(combos)]
+        version = FLAGVER[flag] if flag else DEFAULT
+        ver = interact.verkey(version)
+        V = spec.VERS[ver]
+        order = interact.probe_order(version, allm) or list(V.order if allm else V.mandatory)
+        answers = []
+        for m in order:
+            if rng.random() < 0.3:
+                answers.append(rng.choice(("?", "help", "zz", m + ":" + V.table[m][0], "done")))       # asked again
+            v = rng.choice(V.table[m])
+            answers.append(rng.choice((v, v.lower(), " " + v, v + " ")))
+        argv = ([flag] if flag else []) + (["-a"] if allm else []) + rng.choice(([], ["-n"], ["-j"], ["-n", "-j"]))
+        inp = {"argv": argv, "stdin": answers, "pty": [rng.choice((80, 40, 132)), 24], "console_script": bool(i % 2), "env": TERMINAL_ENVS[e]}
+        part.count(inp, nontrivial=True, classes=("dialogue at a terminal", "terminal env:%s" % ",".join("%s=%s" % kv for kv in sorted(TERMINAL_ENVS[e].items(), key=str)) or "terminal env:unchanged"))
+        part.check("cli", check_cli, inp)
     return part
 
 
@@ -421,6 +472,8 @@ def run(tier, t0):
         part = runner.hyp_shards("vf.props.c17", "hyp_part", 4800, args=(20,))
     else:
         part = runner.hyp_shards("vf.props.c17", "hyp_part", 160000, args=(300,))
+    for p in runner.parallel("vf.props.c17", "pty_dialogue_part", [(sh, 4 if tier == "quick" else 32, runner.SEED) for sh in range(runner.NPROC)]):
+        part.merge(p)
     from ..fuzz import driver
     fuzz_note = driver.campaign(part, "cli", runs=80000 if tier == "quick" else 2000000)
     rule = ("command lines: 0/1/several of -2 -3 -4, -j/-a/-n (short or long), vector (valid for the selected version, valid "
@@ -431,5 +484,5 @@ def run(tier, t0):
     return runner.finish(part, tier, t0, rule,
                          ["coverage-guided: " + fuzz_note, "several version flags: the report of any selected version is accepted (precedence undefined by the statement)",
                           "an empty VECTOR is read as 'no vector'; layout/padding, banners and prompts are not asserted; ratings are required for v3/v4 (the CLI prints none for v2); a None v2 score line may be printed or omitted"],
-                         required=("clustered-short-flags", "mode:valid", "mode:other-version", "mode:mutant", "mode:text", "mode:argparse-special", "mode:interactive", "mode:interactive-eof",
+                         required=("dialogue at a terminal", "clustered-short-flags", "mode:valid", "mode:other-version", "mode:mutant", "mode:text", "mode:argparse-special", "mode:interactive", "mode:interactive-eof",
                                    "flags=0", "flags=1", "flags=2", "json", "subprocess"))
